@@ -332,10 +332,93 @@ proof! {
 	}
 }
 
+const NPOS: usize = parse_env(option_env!("VH_NPOS"), 1) as usize;
+const NNEG: usize = parse_env(option_env!("VH_NNEG"), 1) as usize;
+
+proof! {
+	[secp, zeroize] fn kernel_offset_sum() {
+		// committed::sum_kernel_offsets(positive, negative) - the offset arithmetic behind
+		// Block::block_kernel_offset (header offset minus the previous one), aggregate and the
+		// chain's running totals - is the group sum of the positive scalars minus the negative
+		// ones, zero scalars ignored. Runs against the model group under Kani and against real
+		// libsecp256k1 in the native replay (same code).
+		use grin_util::secp::key::SecretKey;
+		let scalar = |v: u16| {
+			let mut b = [0u8; 32];
+			b[0] = v as u8;
+			b[1] = (v >> 8) as u8;
+			BlindingFactor::from_slice(&b)
+		};
+		let mut pv = [0u16; 2];
+		let mut nv = [0u16; 2];
+		let mut pos = Vec::with_capacity(2);
+		let mut neg = Vec::with_capacity(2);
+		let mut i = 0;
+		while i < NPOS {
+			pv[i] = nd::any();
+			pos.push(scalar(pv[i]));
+			i += 1;
+		}
+		i = 0;
+		while i < NNEG {
+			nv[i] = nd::any();
+			neg.push(scalar(nv[i]));
+			i += 1;
+		}
+		// the definition, through the group's own sum
+		let expect = {
+			let secp = grin_util::static_secp_instance();
+			let secp = secp.lock();
+			let mut pk: Vec<SecretKey> = Vec::with_capacity(2);
+			let mut nk: Vec<SecretKey> = Vec::with_capacity(2);
+			i = 0;
+			while i < NPOS {
+				if pv[i] != 0 {
+					pk.push(scalar(pv[i]).secret_key(&secp).unwrap());
+				}
+				i += 1;
+			}
+			i = 0;
+			while i < NNEG {
+				if nv[i] != 0 {
+					nk.push(scalar(nv[i]).secret_key(&secp).unwrap());
+				}
+				i += 1;
+			}
+			if pk.is_empty() && nk.is_empty() {
+				Some(BlindingFactor::zero())
+			} else {
+				// (the real library refuses a sum that is exactly zero; those inputs are skipped)
+				secp.blind_sum(pk, nk).ok().map(BlindingFactor::from_secret_key)
+			}
+		};
+		nd::assume(expect.is_some());
+		let expect = expect.unwrap();
+		// the recorded finding (known_findings.json): when no positive offset is non-zero the
+		// function returns zero and ignores the negative ones. The shape with no positive offset
+		// at all is its witness; the other shapes are claimed outside that case.
+		let all_pos_zero = (NPOS < 1 || pv[0] == 0) && (NPOS < 2 || pv[1] == 0);
+		let some_neg = (NNEG >= 1 && nv[0] != 0) || (NNEG >= 2 && nv[1] != 0);
+		if NPOS > 0 {
+			nd::assume(!(all_pos_zero && some_neg));
+		}
+		let got = grin_core::core::committed::sum_kernel_offsets(pos, neg);
+		if NPOS == 0 {
+			check!(matches!(&got, Ok(b) if *b == expect), "with no positive offsets the sum is minus the negative offsets");
+		} else {
+			check!(matches!(&got, Ok(b) if *b == expect), "kernel offset sum = sum(positive) - sum(negative), zero scalars ignored");
+		}
+		cover!(NNEG == 0 || nv[0] != 0, "a non-zero negative offset");
+		core::mem::forget(got);
+		core::mem::forget(expect);
+	}
+}
+
 pub const HARNESSES: &[(&str, fn())] = &[
 	("c01::kernel_sums_iff_equation_1_2_1", kernel_sums_iff_equation_1_2_1),
 	("c01::tx_validate_sound", tx_validate_sound),
 	("c01::body_validate_consults_oracles", body_validate_consults_oracles),
 	("c01::block_coinbase_sum", block_coinbase_sum),
 	("c01::header_overage_arithmetic", header_overage_arithmetic),
+	("c01::kernel_offset_sum", kernel_offset_sum),
 ];
